@@ -183,8 +183,9 @@ func MapOrder(nondet bool) {}
 // preemptive context switches per path. Natively the Go scheduler decides.
 func Schedule(maxPreemptions int) {}
 
-// Quiesce blocks until no other goroutine can run (engine); natively it sleeps briefly.
-func Quiesce() { time.Sleep(20 * time.Millisecond) }
+// Quiesce blocks until no other goroutine can run (engine); natively it sleeps for 150 ms (three polling periods
+// of the indexer service).
+func Quiesce() { time.Sleep(150 * time.Millisecond) }
 
 // Symbolic reports whether the harness runs under the symbolic engine.
 func Symbolic() bool { return false }
